@@ -545,3 +545,28 @@ def fold_value(node, module=None, cls_node=None):
         env = class_body_constants(cls_node, env)
     ok, val = const_eval(node, env)
     return val if ok else NotImplemented
+
+
+def local_values(fnode, expr, params=(), depth=0):
+    """the expressions a value can come from: for a local name that is not a parameter and is only bound by plain
+    assignments, the (recursively resolved) right-hand sides; for a conditional expression both arms; otherwise the
+    expression itself.  Used to see through `x = <value> ... self.a = x`."""
+    if depth > 4:
+        return [expr]
+    if isinstance(expr, ast.IfExp):
+        return local_values(fnode, expr.body, params, depth + 1) + local_values(fnode, expr.orelse, params, depth + 1)
+    if isinstance(expr, ast.Name) and expr.id not in params:
+        binds = []
+        for n in ast.walk(fnode):
+            if isinstance(n, ast.Name) and n.id == expr.id and isinstance(n.ctx, (ast.Store, ast.Del)):
+                par = getattr(n, '_parent', None)
+                if isinstance(par, ast.Assign) and n in par.targets:
+                    binds.append(par.value)
+                else:
+                    return [expr]
+        if binds:
+            out = []
+            for b in binds:
+                out += local_values(fnode, b, params, depth + 1)
+            return out
+    return [expr]
